@@ -686,7 +686,20 @@ impl<'a> Gen<'a> {
                 Op::Append { pairs: self.pairs(m, max), cap: *self.rng.pick(&[0usize, 0, 3, 100]) }
             }
             Convert => Op::Convert,
-            CloneSwap => Op::CloneSwap,
+            CloneSwap => {
+                if self.rng.chance(1, 2) {
+                    Op::CloneSwap
+                } else {
+                    // destination shorter, equal or longer than the source
+                    let n = match self.rng.below(3) {
+                        0 => self.rng.below(3),
+                        1 => m.len(),
+                        _ => m.len() + 1 + self.rng.below(4),
+                    };
+                    let pre = (0..n).map(|j| (1000 + j as u32, self.ord())).collect();
+                    Op::CloneFrom { pre }
+                }
+            }
             Drain => {
                 let len = m.len();
                 let a = self.rng.below(len + 2);
